@@ -46,6 +46,10 @@ H_BOUNDARY = [0, 3, 4, 5, 6, 7, 8, 9, 10, 11, 12, 29, 30, 31, 89, 90, 91, 179, 1
 
 def pick_h(rng) -> int:
     x = rng.random()
+    if x < 0.08:
+        return 0
+    if x < 0.16:
+        return 3
     if x < 0.45:
         return rng.choice(H_BOUNDARY)
     if x < 0.75:
@@ -70,6 +74,7 @@ def gen_session(rng, maxlen: int) -> dict:
     style = rng.choice(['cadence', 'peer-ka', 'silence', 'burst', 'random', 'boundary', 'boundary'])
     n = rng.randrange(1, maxlen)
     t, L, A = tS, tR, tS
+    over, nka = False, 0
     polls: list[list] = []
     quiet_after = rng.randrange(0, n + 1)
     off = [-1001, -1000, -999, -2, -1, 0, 1, 2, 999, 1000, 1001]
@@ -119,8 +124,16 @@ def gen_session(rng, maxlen: int) -> dict:
             else:
                 kind = rng.choice(['refresh', 'operational', 'open', 'notification'])
         polls.append([t, kind])
+        # steering only: once the session must be over, one more iteration and stop
+        if over:
+            break
         if kind in REAL:
             L = t
+        elif H and t // 1000 - L // 1000 > H:
+            over = True
+        if not H and kind == 'keepalive':
+            nka += 1
+            over = nka >= 2
         if K and t // 1000 >= A // 1000 + K:
             A = t
     return {'H': H, 'tR': tR, 'tS': tS, 'polls': polls, 'style': style}
